@@ -288,7 +288,12 @@ func run(x xfs, c callT, a opArgs) fsx.Res {
 	}
 
 	if strings.HasPrefix(c.Op, "File.") {
-		f, err := x.OpenFile(a.A, c.Flag, 0)
+		openPerm := fs.FileMode(0)
+		if c.Flag&os.O_CREATE != 0 {
+			openPerm = perm // the handle is created with a mode that may not grant what it was opened for
+		}
+
+		f, err := x.OpenFile(a.A, c.Flag, openPerm)
 		if err != nil {
 			r := errRes(err)
 			r.Kind = "open:" + r.Kind
